@@ -75,7 +75,7 @@ def _uniform(sp):
 
 
 def _scalars(sp):
-    return [2.0, -0.5] + ([1j, 1.0 - 2.0j] if S.is_complex(sp) else [])
+    return [2.0, -0.5] + ([1j, 1.0 - 2.0j, 2.0 + 2.0 ** -30 * 1j] if S.is_complex(sp) else [])
 
 
 def _unary(sp):
@@ -240,6 +240,37 @@ def check_adjoint(op, site, first, stats, depth=2, approx=False, data=()):
                          '<A x, y> = %r but <x, A* y> = %r for x = basis vector %d of %r, y = basis '
                          'vector %d of %r (max defect %.3g over %d pairs)'
                          % (Lm[i, j], Rm[i, j], j, dom, i, ran, D.max(), D.size))
+    # the same identity for inputs that wrap Fortran-ordered arrays (same elements of the space,
+    # other memory layout): <A x_F, y> against <x, A* y> and <A x, y> against <x, A* y_F>
+    if (site, 'adjoint_identity_fails') not in first and (S.has_layout(dom) or S.has_layout(ran)):
+        try:
+            worst, where = 0.0, None
+            if S.has_layout(dom):
+                for j, e in enumerate(S.basis(dom)):
+                    axf = op(S.from_flat_F(dom, e))
+                    stats['evals'] += 1
+                    for i, y in enumerate(ey):
+                        v = _inner(ran, axf, y)
+                        v = v.real if real_only else v
+                        if abs(v - Rm[i, j]) > worst:
+                            worst, where = abs(v - Rm[i, j]), ('x', j, i, v, Rm[i, j])
+            if S.has_layout(ran):
+                for i, e in enumerate(S.basis(ran)):
+                    byf = adj(S.from_flat_F(ran, e))
+                    stats['evals'] += 1
+                    for j, x in enumerate(ex):
+                        v = _inner(dom, x, byf)
+                        v = v.real if real_only else v
+                        if abs(v - Lm[i, j]) > worst:
+                            worst, where = abs(v - Lm[i, j]), ('y', j, i, Lm[i, j], v)
+            if worst > tol * scale:
+                first.setdefault((site, 'adjoint_identity_fails_for_fortran_ordered_input'),
+                                 'with %s wrapping a Fortran-ordered array: <A x, y> = %r but '
+                                 '<x, A* y> = %r (x, y = basis vectors %d, %d)'
+                                 % (where[0], where[3], where[4], where[1], where[2]))
+        except Exception as e:
+            first.setdefault((site, 'call_with_fortran_ordered_input_raises:' + type(e).__name__),
+                             repr(e)[:300])
     # the same identity with the adjoint evaluated in place (what the solvers do): a fresh
     # (poisoned) out for every basis vector of the range
     if not S.is_field(dom):
